@@ -169,6 +169,16 @@ def backref_programs():
                 yield {'prog': O('cat', e, O('cat', cap, r), left=True), 'form': 'm', 'w': 'Wref'}
                 yield {'prog': O('enc', e, O('cat', cap, r)), 'form': 'c', 'w': 'Wref'}
                 yield {'prog': O('enc', O('cat', cap, r), e, Lx('#')), 'form': 'c', 'w': 'Wref'}
+            # a reference as the whole operand of Group / Capture, flagged or not (round 8: the flag of
+            # Group(Backreference('n'), is_case_insensitive=True) must not be lost)
+            for f in 'cm':
+                for ci in (False, True):
+                    yield {'prog': O('cat', cap, Lx('-'), O('grp', r, ci=ci)), 'form': f, 'w': 'Wref'}
+                    yield {'prog': O('cat', cap, O('grp', O('cat', r, Lx('b')), ci=ci)), 'form': f, 'w': 'Wref'}
+                    yield {'prog': O('cat', cap, O('opt', O('grp', r, ci=ci)), Lx('0')), 'form': f, 'w': 'Wref'}
+                yield {'prog': O('cat', cap, Lx('-'), O('cap', r)), 'form': f, 'w': 'Wref'}
+                yield {'prog': O('cat', cap, Lx('-'), O('cap', r, name='k2')), 'form': f, 'w': 'Wref'}
+                yield {'prog': O('cat', cap, Lx('-'), O('grp', O('cap', r, name='k2'), ci=True)), 'form': f, 'w': 'Wref'}
             for q in (O('ex', r, n=2), O('plus', r), O('opt', r), O('q', r, n=1, m=3)):
                 yield {'prog': O('cat', cap, q, Lx('0')), 'form': 'c', 'w': 'Wref'}
                 yield {'prog': O('cat', cap, q), 'form': 'm', 'w': 'Wref'}
